@@ -214,6 +214,16 @@ def c01(backends=None, prop="C01"):
     chk.parts["driver_commands"] = len(cmds)
     _samples(chk, files)
     if prop == "C01":
+        # written under one meaning of the legacy-CRC switch, read under the other (both directions), CRC32, with and
+        # without forced checks: readers accept both flavours whatever the switch says
+        tg = []
+        for j, (be, k, m, hd) in enumerate([(BE_RS, 4, 2, 2), (BE_XOR, 5, 5, 3), (BE_RS, 10, 4, 4), (BE_XOR, 10, 6, 4)]):
+            if be in backends:
+                tg.append(sweep_cmd(be, k, m, hd, 2, 100 + 37 * j, _seed_of(chk, 4000 + j), 0, tolerance(be, m, hd), 40, 1 | 2 | 4 | 64))
+        for envv, nm in (({}, "a"), ({"LIBERASURECODE_WRITE_LEGACY_CRC": "1"}, "b")):
+            ft, et, rt = run_sweeps("asan", tg, prop + "-toggle" + nm, env=envv)
+            vt = validate("TraceCodes", ft)
+            _collect(chk, vt, ["C01", "C02", "fault", "create failed", "encode failed"])
         _suite(chk, ["C13/C01", "C02 success", "fault"])
         _gcc_boundary(chk, prop, cmds, ["C01", "C02", "fault", "create failed", "encode failed"])
     return _finish_codes(chk,
@@ -423,6 +433,11 @@ def c05():
     for j, (k, m, hd) in enumerate([(5, 5, 3), (10, 6, 4), (6, 6, 4), (12, 6, 3)] if thorough else [(5, 5, 3), (10, 6, 4)]):
         big = sweep_cmd(BE_XOR, k, m, hd, 1 + j % 2, k * (65536 + 4 * (j + 1)), _seed_of(chk, 900 + j), 1, hd - 1, 6, 1 | 8)
         cmds_b.append(big); cmds_n.append(big)
+        # ... and blocks that are exact multiples of 64 KiB (strip-wise loops)
+        ex = sweep_cmd(BE_XOR, k, m, hd, 1 + j % 2, k * 65536 * (1 + j % 2), _seed_of(chk, 920 + j), 1, hd - 1, 4, 1 | 8)
+        cmds_b.append(ex)
+        if j == 0:
+            cmds_n.append(ex)
     f2, e2, r2 = run_sweeps("nosse", cmds_n, "C05-nosse")
     v = validate("TraceCodes", f1 + f2)
     _collect(chk, v, ["C05", "C01", "C02", "C03", "fault", "create failed", "encode failed"])
